@@ -150,6 +150,10 @@ class Proc:
         self.results[(what, rsrc_id)] = res
 
     def note_exc(self, fn, err):
+        if getattr(err, 'vf_injected', False):
+            # the handler let an (injected) connection loss through: the request is answered with an error
+            self.world.count('requests_failed_on_injected_connection_loss')
+            return
         self.world.report(
             'exception:%s@%s' % (type(err).__name__, fn),
             '%s of the presence service on %s raised %s: %s' % (fn, self.host.name, type(err).__name__, err),
@@ -197,6 +201,11 @@ class World:
         self.done_actions = set()
         self.expiries_left = scn['expiries']
         self.crashes_left = scn['crashes']
+        # transient connection losses: a ZooKeeper write of a request handler fails with ConnectionLoss (nothing is
+        # applied, the session survives); drawn from a generator of their own so that scripted replays stay exact
+        self.connloss_left = scn.get('connloss', 0)
+        self.connloss_injected = 0
+        self.fault_rng = __import__('random').Random(scn.get('connloss_seed', 0))
         # scheduling policy of this case: uniform / one host runs ahead of the
         # other / the window between a handler's read of a node and its
         # following write is stretched (the handler is rarely picked there)
@@ -228,7 +237,7 @@ class World:
             self._lc_main = logcontext.LOCAL_.ctx
             self.sched = _sched.Scheduler(on_exec=self.oracle.pre_op, on_enter=self._enter_task,
                                           on_leave=self._leave_task)
-            self.srv.on_op = self.sched.yield_point
+            self.srv.on_op = self._on_op
             self.svc_sids = set()
 
             self.master = self.srv.client('master')
@@ -397,6 +406,32 @@ class World:
         host.keep_sid = proc.sid
         self._settle()
 
+    def _on_op(self, client, op, path):
+        inject = False
+        if self.connloss_left > 0 and op == 'delete':
+            # (only the clean-up of a container is hit: a registration that fails makes the container abort, which
+            # the scenarios do not play)
+            import greenlet
+            task = getattr(greenlet.getcurrent(), 'task', None)
+            inject = (task is not None and task.kind == 'req' and task.meta.get('ev') == 'deleted' and
+                      isinstance(task.owner, Proc) and client is task.owner.zk and self.fault_rng.random() < 0.3)
+        if not inject:
+            self.sched.yield_point(client, op, path)
+            return
+        # the operation never reaches the server: the scheduling point is kept, the oracle is not told of an operation
+        import kazoo.exceptions
+        on_exec, self.sched.on_exec = self.sched.on_exec, None
+        try:
+            self.sched.yield_point(client, op, path)
+        finally:
+            self.sched.on_exec = on_exec
+        self.connloss_left -= 1
+        self.connloss_injected += 1
+        self.count('connection_losses_injected')
+        err = kazoo.exceptions.ConnectionLoss('injected: %s %s' % (op, path))
+        err.vf_injected = True
+        raise err
+
     # -- after every step -----------------------------------------------------------
     def _settle(self):
         self.oracle.after_step(self.svc_sids)
@@ -411,7 +446,9 @@ class World:
 
     def _finished(self, task):
         proc = task.owner
-        if task.exc is not None and not isinstance(task.exc, _sched.Killed):
+        if task.exc is not None and getattr(task.exc, 'vf_injected', False):
+            pass
+        elif task.exc is not None and not isinstance(task.exc, _sched.Killed):
             err = task.exc
             if isinstance(err, ExitCalled):
                 cause = type(err.cause).__name__ if err.cause is not None else 'SystemExit'
@@ -701,6 +738,11 @@ class World:
         answered, or waits for a node a live foreign session still owns (with a
         watch armed on it)."""
         from treadmill import services
+        if self.connloss_injected:
+            # a clean-up whose delete was lost leaves its node behind for the life of the service's session:
+            # whoever waits for that node waits on - progress after such a fault is not what R6 is about
+            self.count('quiescence_checks_skipped_after_connection_loss')
+            return
         for rid, c in self.cont.items():
             if not c['open']:
                 continue
